@@ -1,4 +1,5 @@
 import Aoe.Lemmas.Versions
+import Aoe.Lemmas.Creatable
 import Aoe.Generated.Ob
 /-!
 # C15 – only what a scenario version has can be used in it, and nothing else is refused
@@ -79,6 +80,40 @@ theorem add_supported {c : Ctx} {t : Table} (h : tableOK c t = true) {e : TypeEn
     (dmerge e0.defaults e.defaults).map (fun kv => (kv.1, kwValue c.sig e.id args kv.1 kv.2)), hd, ?_, ?_⟩
   · simp only [addKw, hargs, hd]; exact fillKw_eq hk
   · exact dkeys_map_val _ (kwValue c.sig e.id args)
+
+/-- **what the version has can always be created**: for every type of a well-formed table the call without arguments
+builds the keyword dict *and* the constructor accepts it (`Effect.__init__` / `Condition.__init__` do not raise) -/
+theorem create_default_ok {c : Ctx} {t : Table} (h : tableOK c t = true) {e : TypeEntry} (he : e ∈ t) :
+    ∃ kw o, addKw c.sig t e.id [] = .ok kw ∧ construct c kw = .ok o := by
+  obtain ⟨e0, h0, h1, -, hndE, K0, KE, -, -, -, hcr, hvr⟩ := tableOK_entry h he
+  have hd : defaultsFor t e.id = some (dmerge e0.defaults e.defaults) := by simp [defaultsFor, h0, h1]
+  have hkeys : ∀ k ∈ dkeys (dmerge e0.defaults e.defaults), k ∈ c.sig.addParams ∧ k ∈ c.sig.initParams := by
+    intro k hk
+    rcases mem_dkeys_dmerge.1 hk with hk | hk
+    · exact K0 k hk
+    · exact KE k hk
+  have hkw : addKw c.sig t e.id [] = .ok (defaultKw c.sig e.id (dmerge e0.defaults e.defaults)) := by
+    simp only [addKw, List.any_nil, Bool.false_eq_true, if_false, hd]
+    exact fillKw_eq (fun k hk => (hkeys k hk).1)
+  have hD : ∀ n, (dget (dmerge e0.defaults e.defaults) n).getD .none = dflt e0.defaults e.defaults n :=
+    fun n => dget_dmerge_dflt hndE n
+  simp only [creatable, Bool.and_eq_true, Bool.or_eq_true, Bool.not_eq_true'] at hcr
+  obtain ⟨⟨⟨⟨⟨hint, hx1⟩, hx2⟩, hy1⟩, hy2⟩, heff⟩ := hcr
+  obtain ⟨o, ho⟩ := construct_defaults_ok c e.id (dmerge e0.defaults e.defaults)
+    (fun k hk => (hkeys k hk).2)
+    (fun hm => hvr (hkeys _ hm).1)
+    (by simp only [hD]; exact hint) (by rw [hD]; exact hx1) (by rw [hD]; exact hx2) (by rw [hD]; exact hy1)
+    (by rw [hD]; exact hy2)
+    (by
+      intro hE
+      rcases heff with hne | hq
+      · rw [hE] at hne; cases hne
+      · rw [hD, hD]
+        refine ⟨by simpa using hq.1, ?_⟩
+        have := hq.2
+        unfold qOK
+        exact this)
+  exact ⟨_, o, hkw, ho⟩
 
 /-! ## version-gated attributes (links) -/
 
@@ -227,6 +262,16 @@ theorem effect_types {vt : VersionTable} (hv : vt ∈ Versions.all) (w : Nat) (a
   · obtain ⟨d, kw, -, h, -⟩ := add_supported (version_parts hv).2.1 he args hargs
     exact ⟨kw, h⟩
 
+/-- **C15, "never refused", for every shipped version**: every effect type and every condition type of the version's
+table can be created with its defaults (the constructor does not raise), for both armour/attack layouts -/
+theorem every_type_creatable {vt : VersionTable} (hv : vt ∈ Versions.all) (w : Nat) :
+    (∀ e ∈ vt.effects, ∃ kw o, addKw Helpers.effectSig vt.effects e.id [] = .ok kw ∧ construct (Helpers.ctxE w) kw = .ok o) ∧
+    (∀ e ∈ vt.conditions, ∃ kw o, addKw Helpers.conditionSig vt.conditions e.id [] = .ok kw ∧ construct Helpers.ctxC kw = .ok o) := by
+  -- the table obligation does not look at the armour/attack width
+  have hw : tableOK (Helpers.ctxE w) vt.effects = tableOK (Helpers.ctxE 16) vt.effects := rfl
+  exact ⟨fun _ he => create_default_ok (c := Helpers.ctxE w) (hw ▸ (version_parts hv).2.1) he,
+         fun _ he => create_default_ok (c := Helpers.ctxC) (version_parts hv).2.2 he⟩
+
 theorem condition_types {vt : VersionTable} (hv : vt ∈ Versions.all) (args : Dict) (tr : Trig)
     (hargs : ArgsOK Helpers.conditionSig args) :
     (∀ m ∈ Helpers.conditionMembers, m.value ∉ vt.conditions.ids →
@@ -237,5 +282,34 @@ theorem condition_types {vt : VersionTable} (hv : vt ∈ Versions.all) (args : D
       (by show m.value ∈ Helpers.conditionSig.enumVals; rw [condition_enum]; exact List.mem_map.2 ⟨m, hm, rfl⟩)
   · obtain ⟨d, kw, -, h, -⟩ := add_supported (version_parts hv).2.2 he args hargs
     exact ⟨kw, h⟩
+
+/-! ## the hypotheses are met by concrete, non-trivial states (regenerated tables) -/
+
+/-- the oldest shipped version lacks some `EffectId` member and has another one -/
+example : (match Versions.all with
+    | vt :: _ => Helpers.effectMembers.any (fun m => !memI m.value vt.effects.ids) &&
+                 Helpers.effectMembers.any (fun m => memI m.value vt.effects.ids)
+    | [] => false) = true := by decide +kernel
+
+/-- in the oldest version some link of a reachable class is unsupported and its field is missing; in the newest
+version some gated link is supported and its field exists -/
+example : (match Versions.all, Versions.all.getLast? with
+    | old :: _, some new =>
+      Links.classes.any (fun c => memN c.cls (reachable Links.classes Links.roots old.version Links.classes.length) &&
+        c.links.any (fun l => l.support.isSome && !supportsOpt l.support old.version && !hasPath old.paths l.path)) &&
+      Links.classes.any (fun c => memN c.cls (reachable Links.classes Links.roots new.version Links.classes.length) &&
+        c.links.any (fun l => l.support.isSome && supportsOpt l.support new.version && hasPath new.paths l.path))
+    | _, _ => false) = true := by decide +kernel
+
+/-- reachability is version dependent: some class is constructed in the newest version but not in the oldest -/
+example : (match Versions.all, Versions.all.getLast? with
+    | old :: _, some new =>
+      Links.classes.any (fun c =>
+        memN c.cls (reachable Links.classes Links.roots new.version Links.classes.length) &&
+        !memN c.cls (reachable Links.classes Links.roots old.version Links.classes.length))
+    | _, _ => false) = true := by decide +kernel
+
+/-- `ArgsOK` is satisfiable by a real argument -/
+example : ArgsOK Helpers.effectSig [(Helpers.attrNames.quantity, .int 5)] := by unfold ArgsOK; decide +kernel
 
 end Aoe.Props.C15
